@@ -53,3 +53,8 @@ claim("C14",
  "Trusted: as C04; the escape reader is identified structurally (switch with cases for 'u' and 'n').",
  "static analysis: per-byte abstract interpretation of the writer vs the parser's escape case table; table-identity check; guard/dereference consistency lint",
  "DESIGN.md §4 C14")
+claim("C15",
+ "Static decision of structural clauses of 'all encoders agree on a Go value': no per-field decision leaks between fields of a struct-field loop (K-loop), the three field-plan builders of each encoder patch the same plan fields when promoting embedded structs (K-embed, sibling feature vectors), every float formatting call uses the bit size of the value's type (K-floatbits, type-driven), and the plain and omit-empty plan caches are filled in exclusive branches (K-cache). The encoded tree itself and encoding/json parity are not decided.",
+ "Trusted: go/types; K-embed compares siblings with each other (majority of three per package), so a slip copied into all three is invisible to it.",
+ "static analysis: loop-carried assignment lint, sibling feature-vector comparison, type-driven argument check, branch-exclusivity check",
+ "DESIGN.md §4 C15")
